@@ -5,6 +5,7 @@
   `dd._abc.BDD`).
 -/
 import DDProofs.ApiAutoProofs
+import DDProofs.ApiXCopyAuto
 import DDProps.C08
 import DDProps.C10
 open Std
@@ -73,6 +74,16 @@ theorem C10_pick_method (t : Tbl) (hw : WFU t) (hv : VarsOK t) (u : Int) (hm : t
       (L.head? = none ↔ u = -1) ∧ (∀ m, L.head? = some m → m ∈ L) := by
   obtain ⟨L, hL, h1, h2⟩ := C10_pick_spec t hw hv u hm care
   exact ⟨L, hL, by simp [pickOp, hL], h1, h2⟩
+
+/-- C08 / C11 (`dd._copy.copy_bdd(u, target)` between two `dd.autoref` managers, reordering not
+enabled in the target, the variables of the support of `u` declared there): the target keeps its
+invariant with the count equation — every temporary `Function` the recursion created is gone,
+exactly one new handle holds the result — and every `Function` alive in the target keeps its node
+and its meaning. -/
+theorem C08_copy_bdd_public (a src : AMgr) {offS : Bool} (hsrc : AInv offS src) (hu h : Nat)
+    (hpre : ∀ u, (nodeOwn hu src).1 = .ok u → CopyPreA src.m.tbl u a.m.tbl) :
+    AKeepsAt true a h (aXCopyTo src hu h) :=
+  aXCopyTo_keepsAtOff a src hsrc hu h hpre
 
 /-! ## non-vacuity -/
 
